@@ -76,9 +76,10 @@ def col_mask(e):
     return None, None
 
 
-def run(ctx, rep):
-    rep.rule("R10.1", "fixed-variable elimination, scaling of the linear system, x0 rescaling and build_x are mutually consistent affine transforms with complementary masks")
-    rep.rule("R10.2", "bounds and constraints are normalised to one internal form whatever way they are stated")
+def run(ctx, rep, r1="R10.1", r2="R10.2", only_transform=False):
+    rep.rule(r1, "fixed-variable elimination, scaling of the linear system, x0 rescaling and build_x are mutually consistent affine transforms with complementary masks")
+    if not only_transform:
+        rep.rule(r2, "bounds and constraints are normalised to one internal form whatever way they are stated")
     f = ctx.func(PINIT)
     bx = ctx.func(T.BUILD_X)
     ex = Expander(ctx, f)
@@ -96,14 +97,14 @@ def run(ctx, rep):
     stage_info = {}
     for stage, (node, elts) in zip(("reduced", "scaled"), builds):
         if len(elts) != 2:
-            rep.bad("R10.1", f"{stage} system")
-            rep.finding("R10.1", f, f"{stage} system with {len(elts)} blocks", node.lineno, "the internal linear system must consist of one inequality and one equality block")
+            rep.bad(r1, f"{stage} system")
+            rep.finding(r1, f, f"{stage} system with {len(elts)} blocks", node.lineno, "the internal linear system must consist of one inequality and one equality block")
             continue
         for kind, c in zip(("ub", "eq"), elts):
             desc = f"{f.local}:{c.lineno} {stage} {kind} block"
             if not (_short(c) == "LinearConstraint" and len(c.args) == 3):
-                rep.bad("R10.1", desc)
-                rep.finding("R10.1", f, norm(c)[:100], c.lineno, "block is not LinearConstraint(A, lb, ub)")
+                rep.bad(r1, desc)
+                rep.finding(r1, f, norm(c)[:100], c.lineno, "block is not LinearConstraint(A, lb, ub)")
                 continue
             A, lb, ub = c.args
             probs = []
@@ -160,11 +161,11 @@ def run(ctx, rep):
                     if norm(m["v"]) != "self._scaling_shift":
                         probs.append(f"the right-hand side is shifted with `{norm(m['v'])}`; build_x adds `self._scaling_shift`")
             if probs:
-                rep.bad("R10.1", desc)
-                rep.finding("R10.1", f, f"{stage} {kind}: " + "; ".join(probs)[:140], c.lineno,
+                rep.bad(r1, desc)
+                rep.finding(r1, f, f"{stage} {kind}: " + "; ".join(probs)[:140], c.lineno,
                             f"the {stage} {kind} block is not the user's constraint expressed in the solver's variables: " + "; ".join(probs))
             else:
-                rep.ok("R10.1", desc + f": A = {norm(A)[:40]}, b = {norm(rhs_e)[:60]}")
+                rep.ok(r1, desc + f": A = {norm(A)[:40]}, b = {norm(rhs_e)[:60]}")
     # build_x: x_full[F] = v ; x_full[~F] = x*f + s
     free = None
     for node in ast.walk(bx.node):
@@ -190,10 +191,10 @@ def run(ctx, rep):
     except Exception:
         ok = False
     if ok:
-        rep.ok("R10.1", f"build_x: free variables = {xparam} * scaling_factor + scaling_shift")
+        rep.ok(r1, f"build_x: free variables = {xparam} * scaling_factor + scaling_shift")
     else:
-        rep.bad("R10.1", "build_x point map")
-        rep.finding("R10.1", bx, norm(free)[:100], free.lineno, "build_x does not map the reduced point as x * scaling_factor + scaling_shift (the map the scaled linear system assumes)")
+        rep.bad(r1, "build_x point map")
+        rep.finding(r1, bx, norm(free)[:100], free.lineno, "build_x does not map the reduced point as x * scaling_factor + scaling_shift (the map the scaled linear system assumes)")
     # x0 rescaling = inverse of the point map; factor/shift definitions
     defs = {}
     for node in ast.walk(f.node):
@@ -211,8 +212,8 @@ def run(ctx, rep):
     for attr, want, label in (("_scaling_factor", {"xu": 0.5, "xl": -0.5}, "half-width"), ("_scaling_shift", {"xu": 0.5, "xl": 0.5}, "midpoint")):
         nodes = sorted(defs.get(attr, []), key=lambda n: n.lineno)
         if len(nodes) != 2:
-            rep.bad("R10.1", f"{attr} definitions")
-            rep.finding("R10.1", f, f"{attr}", f.node.lineno, f"`{attr}` must be defined once in the scaling branch and once (identity) otherwise")
+            rep.bad(r1, f"{attr} definitions")
+            rep.finding(r1, f, f"{attr}", f.node.lineno, f"`{attr}` must be defined once in the scaling branch and once (identity) otherwise")
             continue
         first, second = nodes
         try:
@@ -222,16 +223,16 @@ def run(ctx, rep):
         except NotAffine:
             good = False
         if good:
-            rep.ok("R10.1", f"{f.local}:{first.lineno} {attr} = {label} of the reduced bounds")
+            rep.ok(r1, f"{f.local}:{first.lineno} {attr} = {label} of the reduced bounds")
         else:
-            rep.bad("R10.1", f"{attr}")
-            rep.finding("R10.1", f, norm(first)[:100], first.lineno, f"`{attr}` is not the {label} of the reduced bounds (scaled box [-1, 1] would not map onto [xl, xu])")
+            rep.bad(r1, f"{attr}")
+            rep.finding(r1, f, norm(first)[:100], first.lineno, f"`{attr}` is not the {label} of the reduced bounds (scaled box [-1, 1] would not map onto [xl, xu])")
         ident = _short(second.value) == ("ones" if attr == "_scaling_factor" else "zeros")
         if ident:
-            rep.ok("R10.1", f"{f.local}:{second.lineno} {attr} = identity without scaling")
+            rep.ok(r1, f"{f.local}:{second.lineno} {attr} = identity without scaling")
         else:
-            rep.bad("R10.1", f"{attr} identity")
-            rep.finding("R10.1", f, norm(second)[:100], second.lineno, f"without scaling `{attr}` must be the identity transform")
+            rep.bad(r1, f"{attr} identity")
+            rep.finding(r1, f, norm(second)[:100], second.lineno, f"without scaling `{attr}` must be the identity transform")
     # scaled bounds are [-1, 1]
     okb = False
     for node in ast.walk(f.node):
@@ -242,10 +243,10 @@ def run(ctx, rep):
                     if isinstance(a, ast.UnaryOp) and isinstance(a.op, ast.USub) and _short(a.operand) == "ones" and _short(b) == "ones":
                         okb = True
     if okb:
-        rep.ok("R10.1", "scaled bounds are [-1, 1]^n")
+        rep.ok(r1, "scaled bounds are [-1, 1]^n")
     else:
-        rep.bad("R10.1", "scaled bounds")
-        rep.finding("R10.1", f, "Bounds(-ones, ones)", f.node.lineno, "with scaling the internal bounds must be [-1, 1]^n (the image of [xl, xu] under the inverse point map)")
+        rep.bad(r1, "scaled bounds")
+        rep.finding(r1, f, "Bounds(-ones, ones)", f.node.lineno, "with scaling the internal bounds must be [-1, 1]^n (the image of [xl, xu] under the inverse point map)")
     # (x0 - s)/f checked in C01 R1.5; re-check here for the claim's completeness
     okx = False
     for node in ast.walk(f.node):
@@ -254,24 +255,26 @@ def run(ctx, rep):
             if isinstance(v, ast.BinOp) and isinstance(v.op, ast.Div) and norm(v.right) == "self._scaling_factor" and isinstance(v.left, ast.BinOp) and isinstance(v.left.op, ast.Sub) and norm(v.left.right) == "self._scaling_shift" and norm(v.left.left) == "self._x0":
                 okx = True
     if okx:
-        rep.ok("R10.1", "x0 is rescaled with the inverse point map (x0 - shift) / factor")
+        rep.ok(r1, "x0 is rescaled with the inverse point map (x0 - shift) / factor")
     else:
-        rep.bad("R10.1", "x0 rescale")
-        rep.finding("R10.1", f, "x0 rescaling", f.node.lineno, "x0 is not rescaled with the inverse of the build_x point map")
+        rep.bad(r1, "x0 rescale")
+        rep.finding(r1, f, "x0 rescaling", f.node.lineno, "x0 is not rescaled with the inverse of the build_x point map")
     # reduced bounds / x0 use the complement of the fixed mask
     for node in ast.walk(f.node):
         if isinstance(node, ast.Assign) and any(isinstance(t, ast.Attribute) and t.attr in ("_bounds", "_x0") for t in node.targets):
             for sub in ast.walk(node.value):
                 if isinstance(sub, ast.Subscript) and mentions(sub.slice, "_fixed_idx"):
                     if norm(sub.slice) == "~" + fixed_mask:
-                        rep.ok("R10.1", f"{f.local}:{node.lineno} `{norm(sub)[:40]}` keeps the free variables")
+                        rep.ok(r1, f"{f.local}:{node.lineno} `{norm(sub)[:40]}` keeps the free variables")
                     else:
-                        rep.bad("R10.1", "free mask")
-                        rep.finding("R10.1", f, norm(sub), node.lineno, "the reduced bounds / x0 are not restricted to the free variables")
+                        rep.bad(r1, "free mask")
+                        rep.finding(r1, f, norm(sub), node.lineno, "the reduced bounds / x0 are not restricted to the free variables")
+    if only_transform:
+        return
     # ---- R10.2 -----------------------------------------------------------------
     from .c08 import r84
-    r84(ctx, rep, rule="R10.2")
-    common.check_closure_capture(ctx, rep, "R10.2")
+    r84(ctx, rep, rule=r2)
+    common.check_closure_capture(ctx, rep, r2)
     gb = ctx.func("cobyqa.main:_get_bounds")
     n = 0
     for node in ast.walk(gb.node):
@@ -287,9 +290,9 @@ def run(ctx, rep):
                 if "-np.inf" in a[0] and "np.inf" in a[1] and "-" not in a[1]:
                     good = True
             if good:
-                rep.ok("R10.2", f"{gb.local}:{node.lineno} Bounds({', '.join(a)})")
+                rep.ok(r2, f"{gb.local}:{node.lineno} Bounds({', '.join(a)})")
             else:
-                rep.bad("R10.2", "bounds normalisation")
-                rep.finding("R10.2", gb, norm(node)[:100], node.lineno, "this way of stating the bounds is not normalised to Bounds(lower, upper)")
+                rep.bad(r2, "bounds normalisation")
+                rep.finding(r2, gb, norm(node)[:100], node.lineno, "this way of stating the bounds is not normalised to Bounds(lower, upper)")
     if n < 3:
         raise AnalysisError("_get_bounds: fewer than 3 Bounds(...) returns")
